@@ -53,6 +53,7 @@ class TeeSys:
         self._pending_close = 0
         self.holder = 0
         self.overlap = False
+        self.unmodelled = False
         sys_ = self
 
         class Source:
@@ -211,7 +212,11 @@ class TeeSys:
             self.ev(e="error", c=0, what="Tee.aclose:suspends-while-a-child-is-busy")
             t.throw(Cancelled("stop"))
         elif not (r[0] == "raised" and isinstance(r[1], RuntimeError)):
-            self.ev(e="error", c=0, what="Tee.aclose-while-busy:" + (type(r[1]).__name__ if r[0] == "raised" else "returns"))
+            # No property says what closing the handle does to a child that is being advanced (children built as
+            # generators make Python refuse).  Whatever else happens here is outside the model: the replay stops
+            # without a verdict on what follows.
+            self.unmodelled = True
+            return
         for c in before:
             # the sweep of the handle never happens (the RuntimeError comes first): a never-advanced child closed
             # on the way is in the position of one closed on its own (named deviation UnstartedCloseLeaks)
@@ -414,6 +419,9 @@ def replay_path(args):
                 drift = {"step": j, "label": [a, c], "why": "not enabled in the implementation", "observed": sysm.project()}
                 break
             sysm.closeall_busy()
+            if sysm.unmodelled:
+                drift = {"step": j, "label": [a, c], "why": "Tee.aclose() on a busy child did not raise RuntimeError: outside the model"}
+                break
             got = sysm.project()
             exp = norm_model(e["t"])
             bad = [k for k in exp if got.get(k) != exp[k]]
@@ -453,9 +461,10 @@ def replay_path(args):
             drift = {"step": j, "label": [a, c], "fields": bad, "expected": {k: exp.get(k, e["t"].get(k)) for k in bad},
                      "observed": {k: got.get(k) for k in bad}}
             break
-    if census:
-        sysm.census()
-    sysm.drain(census=census)
+    if not sysm.unmodelled:
+        if census:
+            sysm.census()
+        sysm.drain(census=census)
     return {"cfg": sysm.cfg(), "ev": sysm.trace, "drift": drift, "path": [e["a"] for e in path],
             "acct_ok": sysm.acct.ok(), "overlap": sysm.overlap}
 
@@ -483,6 +492,9 @@ def random_run(args):
         if sysm.busy() and rnd.random() < 0.02:
             steps.append(["closeallbusy", sysm.busy()[0]])
             sysm.closeall_busy()
+            if sysm.unmodelled:
+                return {"cfg": sysm.cfg(), "ev": sysm.trace, "drift": None, "path": steps, "acct_ok": sysm.acct.ok(),
+                        "overlap": sysm.overlap, "seed": seed}
             continue
         a, c = rnd.choice(opts)
         if a == "tick" and not failed and rnd.random() < 0.04:
